@@ -52,7 +52,8 @@ class Exec:
         if k == "qbox":
             t = self._tree(op["t"])
             flag, idx = t.overlaps_aabb(np.array(op["box"], dtype=float))
-            return {"flag": bool(flag), "hits": [self._lookup(t, int(i)) for i in idx]}
+            return {"flag": bool(flag), "hits": [self._lookup(t, int(i)) for i in idx],
+                    "dtype": str(np.asarray(idx).dtype.kind)}
         if k == "qtree":
             a = self._tree(op["a"])
             b = self._tree(op["b"])
@@ -62,7 +63,7 @@ class Exec:
                 i, j = int(p[0]), int(p[1])
                 la, lb = self._lookup(a, i), self._lookup(b, j)
                 out.append([i, j, la[1], la[2], lb[1], lb[2]])
-            return {"flag": bool(flag), "pairs": out,
+            return {"flag": bool(flag), "pairs": out, "dtype": str(np.asarray(oself).dtype.kind) + str(np.asarray(oother).dtype.kind),
                     "oself": [int(i) for i in oself], "oother": [int(i) for i in oother]}
         if k == "root":
             t = self._tree(op["t"])
